@@ -5874,6 +5874,18 @@ impl<'a, 'graph> Builder<'a, 'graph> {
                 }
                 .into_box(),
               ),
+              LoadResponse::Module { specifier, .. }
+                if specifier != requested_specifier =>
+              {
+                Err(
+                  ModuleErrorKind::Load {
+                    specifier: requested_specifier.clone(),
+                    maybe_referrer: maybe_range.clone(),
+                    err: JsrLoadError::RedirectInPackage(specifier).into(),
+                  }
+                  .into_box(),
+                )
+              }
               LoadResponse::Module {
                 content,
                 specifier,
@@ -6364,6 +6376,20 @@ impl<'a, 'graph> Builder<'a, 'graph> {
               specifier,
               maybe_headers,
             } => {
+              if specifier != load_specifier
+                && (maybe_version_info.is_some()
+                  || jsr_url_provider.package_url_to_nv(&specifier).is_some())
+              {
+                // the loader followed a redirect out of or into the registry
+                // by itself: handle it like a redirect it reported, so a
+                // package file is refused and a registry target is loaded
+                // with its manifest checksum
+                return handle_redirect(
+                  specifier,
+                  maybe_attribute_type,
+                  maybe_checksum,
+                );
+              }
               handle_success(
                 module_analyzer,
                 specifier.clone(),
